@@ -18,6 +18,13 @@ class Boom(Exception):
     pass
 
 
+class BadRepr(object):
+    """an argument whose repr() raises something that is not a TypeError: string / pickle(repr) / digest keymaps cannot build a key"""
+    def __init__(self, n): self.n = n
+    def __repr__(self): raise ValueError('no repr for %d' % self.n)
+    __str__ = __repr__
+
+
 def make_keymap(kind):
     from klepto.keymaps import keymap, stringmap, picklemap, hashmap
     if kind == 'raw': return keymap()
@@ -94,7 +101,7 @@ def gen_cfg(r, tier, idx):
     # un-keyable arguments: `hash` fails inside the keymap, `raw` yields an unhashable key
     malformed = blk % 4 == 1
     if malformed:
-        keymap = ['hash', 'raw'][(blk // 4) % 2]
+        keymap = ['hash', 'raw', 'string'][(blk // 4) % 3]
     if backend in DISK_BACKENDS:
         keymap = r.choice(['string', 'md5', 'string_nonflat'])
     # mostly more keys than slots, so that evictions and reloads happen
@@ -171,6 +178,7 @@ def fun(x):
     """the memoized function of every trace: module level, so that dill pickles it by reference and
     a restored copy of the decorated function shares the evaluation log"""
     xx = x[0] if isinstance(x, list) else x
+    if isinstance(xx, BadRepr): xx = xx.n
     if isinstance(xx, str): xx = int(xx[-2:])          # long-argument stratum: the argument number is in the last two characters
     _CUR['log'].append(xx)
     if xx in _CUR['keyerr']: raise KeyError(xx)
@@ -346,6 +354,7 @@ class Runner:
         if kind in ('call', 'callbad'):
             x = op[1]
             args = ([x],) if kind == 'callbad' else (x,)
+            if kind == 'callbad' and self.cfg['keymap'] == 'string': args = (BadRepr(x),)
             if kind == 'call': args = (self.A(x),)
             key, rawk = self.keyin(args)
             chosen = []
